@@ -14,6 +14,9 @@ Stateless exploration on the real ``Field.integrate`` / ``Field.mean`` /
   tuple; result mesh and values.
 * ``translation``: the same lattice at another (exactly representable) place
   gives the same numbers.
+* ``reuse``: one field object used for every operation twice, real / complex /
+  integer-typed values, optionally after an in-place transformation of its mesh
+  (scale, translate, quarter turn) that follows a first use; operand snapshots.
 
 The reference is exact rational arithmetic on the actual float corners.
 """
@@ -29,7 +32,9 @@ PROPERTY = "C06"
 RULE = ("total / directional: full product ndim x cells-per-axis {1,2,3}^ndim x geometry x nvdim x (direction) x every "
         "impulse (cell x component) + tracer; fubini: ndim x cells x geometry x nvdim x every ordering of all directions; "
         "mean_sets: ndim x cells x geometry x nvdim x every ordered non-empty direction subset x list/tuple; "
-        "translation: ndim x cells x dyadic geometry x shift x operation. "
+        "translation: ndim x cells x dyadic geometry x shift x operation; reuse: ndim x shape x geometry x nvdim x value type "
+        "x first use (all operations / none) x in-place transformation of the mesh (none / 2 scalings / translation / "
+        "quarter turns), every operation evaluated twice on the same object. "
         "An execution is non-trivial when at least one oracle comparison ran.")
 ASSUMPTIONS = [
     "scope: 1-4-D meshes with 1..3 cells per axis (4-D quick: cells per axis from {1,2}^4 plus the profiles containing a "
@@ -43,6 +48,9 @@ ASSUMPTIONS = [
     "numbers are compared with the exact rational value with relative tolerance 1e-12 (the library multiplies by the "
     "float cell = (pmax-pmin)/n, a few ulp from the exact rational cell); corners of reduced meshes within 4 ulp",
     "validity, unit, labels and bc of the results are not part of the statement and are not checked",
+    "reuse: results for complex values are demanded through linearity (sums of the real and imaginary parts; the values "
+    "are integers, so the sums are exact and the cell lengths are rounded once), tolerance 16e-12 relative; the field a "
+    "result was computed from must be byte-identical afterwards (a later use of the same object must see the same values)",
     "translation: only translations that are exact in floating point (dyadic lattice) are demanded bit-equal; "
     "non-dyadic lattices are covered through the exact reference at each position",
 ]
@@ -449,6 +457,107 @@ def unit_translation(ctx):
         ctx.fail("integrate-mean/depends-on-mesh-position", f"{name}({arg}, cumulative={cum}): {a.ravel()[:4].tolist()} vs "
                  f"{b.ravel()[:4].tolist()} after an exact translation by {shift}")
 
+# --------------------------------------------------------------------------------------------------------------------
+def _raw(r, nvdim):
+    a = np.asarray(r.array if isinstance(r, df.Field) else r)
+    return a
+
+
+def _ops_expected(arr, mesh):
+    """every operation of the property on the CURRENT geometry of ``mesh`` for the values ``arr`` (integer-valued real
+    or complex data: the sums are exact in floating point; the cell lengths are the exact rational ones rounded once).
+    Returns {name: (call, expected array, magnitude array)}"""
+    nd = len(mesh.n)
+    dims = mesh.region.dims
+    cell = [float(c) for c in _exact_cell(mesh)]
+    n = [int(k) for k in mesh.n]
+    dV = float(np.prod([Fr(c) for c in _exact_cell(mesh)]))
+    vol = dV * int(np.prod(n))
+    a = np.abs(arr)
+    out = {}
+    allax = tuple(range(nd))
+    out["integrate()"] = (lambda f: f.integrate(), np.sum(arr, axis=allax) * dV, np.sum(a, axis=allax) * dV)
+    out["mean()"] = (lambda f: f.mean(), np.sum(arr, axis=allax) * dV / vol, np.sum(a, axis=allax) * dV / vol)
+    for k in range(nd):
+        d, h = dims[k], cell[k]
+        out[f"integrate({d})"] = (lambda f, d=d: f.integrate(d), np.sum(arr, axis=k) * h, np.sum(a, axis=k) * h)
+        out[f"mean({d})"] = (lambda f, d=d: f.mean(d), np.sum(arr, axis=k) * h / (h * n[k]), np.sum(a, axis=k) / n[k])
+        cum = (np.cumsum(arr, axis=k) - arr / 2.0) * h
+        out[f"integrate({d},cumulative)"] = (lambda f, d=d: f.integrate(d, cumulative=True), cum,
+                                             np.cumsum(a, axis=k) * h)
+    return out
+
+
+def unit_reuse(ctx):
+    """The same field OBJECT is used again and again (every operation of the property, twice), its values may be
+    complex or integer-typed, and its mesh may have been transformed in place after the first use: every number must
+    be the one the exact formula gives for the geometry and values the field has at that moment, and no operation may
+    change the field.  (Non-initial states: results must not depend on what was computed with the object before.)"""
+    quick = ctx.tier == "quick"
+    ndim = ctx.choose("ndim", [1, 2, 3])
+    shapes = {1: [[1], [3]], 2: [[1, 3], [3, 2], [2, 1]], 3: [[2, 1, 3], [3, 2, 1], [1, 3, 2], [2, 3, 2]]}[ndim]
+    n = ctx.choose("n", shapes if not quick else shapes[:3])
+    geom = ctx.choose("geom", ["far", "nano"] if not quick else ["far"])
+    nvdim = ctx.choose("nvdim", [1, 3 if ndim == 3 else 2])  # vector fields with a default component-to-axis mapping
+    dt = ctx.choose("dtype", ["float", "complex", "int"])
+    warm = ctx.choose("first-use", ["all-operations", "none"])
+    mesh = _mesh(n, geom, "distinct")
+    dims = mesh.region.dims
+    L = float(np.max(mesh.region.edges))
+    tr = [None, ("scale", 2.0), ("scale", tuple(([2.0, 0.5, 3.0])[:ndim])), ("translate", tuple(([0.75 * L, -2 * L, L])[:ndim]))]
+    if ndim >= 2:
+        tr += [("rotate90", dims[0], dims[1]), ("rotate90", dims[-1], dims[0])]
+    transform = ctx.choose("then-in-place", tr)
+    vals = C.tracer(n, nvdim, ctx.seed)
+    if dt == "complex":
+        vals = vals + 1j * C.tracer(n, nvdim, ctx.seed + 1)[..., ::-1]
+    elif dt == "int":
+        vals = vals.astype(int)
+    f = df.Field(mesh, nvdim=nvdim, value=vals, dtype={"float": float, "complex": complex, "int": int}[dt])
+    inst = ctx.key(drop=("geom",))
+
+    def run_all(tag):
+        exp = _ops_expected(np.array(f.array), f.mesh)
+        for rep in (1, 2):
+            for name, (call, ex, mag) in exp.items():
+                before = C.field_snap(f)
+                ctx.step(1, name)
+                raised, r = C.raises(call, f)
+                ctx.check(2)
+                if raised:
+                    ctx.fail(f"reuse/{tag}/raises", f"{name}: {type(r).__name__}: {str(r)[:150]}", instance=inst)
+                    continue
+                if C.field_snap(f) != before:
+                    ctx.fail("reuse/operation-modified-the-field", f"{name} ({tag}, use {rep}) changed the field it was "
+                             f"called on (values / validity / mesh)", instance=inst)
+                    return False
+                got = _raw(r, nvdim)
+                if got.size != np.asarray(ex).size:
+                    ctx.fail(f"reuse/{tag}/result-shape", f"{name}: shape {got.shape}, expected {np.asarray(ex).shape}", instance=inst)
+                    continue
+                got = got.reshape(np.asarray(ex).shape)
+                ctx.observe(np.round(np.abs(got) / (np.max(np.abs(ex)) or 1.0), 9))
+                if np.any(np.abs(got - ex) > 16 * REL * np.asarray(mag) + 5e-324):
+                    w = tuple(int(i) for i in np.argwhere(np.abs(got - ex) > 16 * REL * np.asarray(mag) + 5e-324)[0])
+                    ctx.fail(f"reuse/{tag}/{name.split('(')[0]}-wrong" + ("/complex-values" if dt == "complex" else ""),
+                             f"{name} (use {rep}, {dt} values): at {w} got {got[w]!r} expected {np.asarray(ex)[w]!r}", instance=inst)
+                    return False
+        return True
+
+    if warm == "all-operations":
+        if not run_all("first-use"):
+            return
+    if transform is not None:
+        ctx.step(1, f"in place: {transform}")
+        if transform[0] == "scale":
+            f.mesh.scale(transform[1], inplace=True)
+        elif transform[0] == "translate":
+            f.mesh.translate(transform[1], inplace=True)
+        else:
+            f.rotate90(transform[1], transform[2], inplace=True)
+    if transform is not None or warm == "none":
+        run_all("after-in-place-transformation" if transform is not None else "first-use")
+
 
 def units(tier):
     return [
@@ -457,4 +566,5 @@ def units(tier):
         {"name": "fubini", "fn": unit_fubini, "bound": None},
         {"name": "mean_sets", "fn": unit_mean_sets, "bound": None},
         {"name": "translation", "fn": unit_translation, "bound": None},
+        {"name": "reuse", "fn": unit_reuse, "bound": None},
     ]
